@@ -85,9 +85,12 @@ class C08Alphabet(alphabet.Alphabet):
                 self.points["R:" + r] = (v, "m", {"k": r}, {"v": 3})
         if cluster == 0:
             self.points["NONE"] = (None, "m", {"k": "none"}, {"v": 4})
-        # instants used as comparison values (all aware): the three of the cluster in UTC plus other representations
+        # instants used as comparison values: the three of the cluster in UTC plus other representations
         self.rhs = [c - US, c, c + US, c - 2 * US, c + 2 * US] + [v for r, v in reps.items() if v.tzinfo is not None and r != "utc"][:3]
         self.rhs.append((c + US).astimezone(dt.timezone(dt.timedelta(hours=-8))))
+        # a naive comparison value means local time, like a naive point time (the index reads it that way)
+        self.rhs.append(reps["naive-local"])
+        self.rhs += [reps[r] for r in ("naive-wall-fold0", "naive-wall-fold1") if r in reps]
         if special:
             # the same wall-clock time of a repeated (or skipped) hour with fold=0 and fold=1: equal and equally hashed
             # as Python objects, yet two different instants
